@@ -126,7 +126,7 @@ GArith(I) ==
         Sh(I, <<"arith2", x>>) /\ (IF I THEN TRUE ELSE (\E p \in SeqsUpTo(IF Quick THEN NumValsQ ELSE NumVals, 1, 2), F \in SUBSET {"MINIMALDATA"} :
         Emit(<<"arith", <<x>> \o p, <<OP_WITHIN>>, F, "BASE">>)))
   \/ (IF I THEN TRUE ELSE ch[1] = "arith3") /\ \E x \in (IF Quick THEN {<<129>>, <<255, 255, 255, 127>>, <<255, 255, 255, 255>>} ELSE NumVals), op1 \in ArithOps :
-        Sh(I, <<"arith3", x, op1>>) /\ (IF I THEN TRUE ELSE (\E p \in SeqsUpTo(IF Quick THEN {<<129>>, <<255, 255, 255, 127>>, <<255, 255, 255, 255>>} ELSE NumVals, IF Quick THEN 1 ELSE 0, IF Quick THEN 1 ELSE 2), op2 \in ArithOps \cup {OP_SIZE, OP_DUP} :
+        Sh(I, <<"arith3", x, op1>>) /\ (IF I THEN TRUE ELSE (\E p \in (IF Quick THEN SeqsUpTo({<<129>>, <<255, 255, 255, 127>>, <<255, 255, 255, 255>>}, 1, 1) ELSE SeqsUpTo(NumVals, 0, 1) \cup SeqsUpTo(NumValsQ, 2, 2)), op2 \in ArithOps \cup {OP_SIZE, OP_DUP} :
         Emit(<<"arith", <<x>> \o p, <<op1, op2>>, {}, "BASE">>)))
 InitArith == GArith(TRUE)
 
@@ -206,17 +206,16 @@ GSig(I) ==
                                                                              PushCanon(KeyC(1)) \o <<OP_CHECKSIG, OP_NOT>>} :
         Sh(I, <<"sig3", st, sc>>) /\ (IF I THEN TRUE ELSE (\E F \in SUBSET {"CONST_SCRIPTCODE", "NULLFAIL"}, sv \in {"BASE", "WITNESS_V0"} :
         Emit(<<"sig", st, sc, F, sv>>)))
-InitSig == GSig(TRUE)
-
   \* OP_CODESEPARATOR: the signature commits to the script from the last executed separator on (legacy hashing drops the separators)
-  \/ \E cs \in 1..4, sc \in {PushCanon(KeyC(1)) \o <<OP_CHECKSIG>>, <<OP_CODESEPARATOR>> \o PushCanon(KeyC(1)) \o <<OP_CHECKSIG>>,
+  \/ (IF I THEN TRUE ELSE ch[1] = "sig4") /\ \E cs \in 1..4, sc \in {PushCanon(KeyC(1)) \o <<OP_CHECKSIG>>, <<OP_CODESEPARATOR>> \o PushCanon(KeyC(1)) \o <<OP_CHECKSIG>>,
                               <<OP_1, OP_CODESEPARATOR, OP_DROP>> \o PushCanon(KeyC(1)) \o <<OP_CHECKSIG>>,
                               <<OP_0, OP_IF, OP_CODESEPARATOR, OP_ENDIF>> \o PushCanon(KeyC(1)) \o <<OP_CHECKSIG>>,
                               <<OP_CODESEPARATOR, OP_CODESEPARATOR>> \o PushCanon(KeyC(1)) \o <<OP_CHECKSIG>>,
                               PushCanon(KeyC(1)) \o <<OP_CODESEPARATOR, OP_CHECKSIG>>, PushCanon(KeyC(1)) \o <<OP_CHECKSIG, OP_CODESEPARATOR>>,
-                              <<OP_CODESEPARATOR, OP_0>> \o MKeys(1) \o <<OP_1, OP_CHECKMULTISIG>>},
-        F \in SUBSET {"CONST_SCRIPTCODE", "NULLFAIL"}, sv \in {"BASE", "WITNESS_V0"} :
-        Start(<<"sig", IF sc[Len(sc)] = OP_CHECKMULTISIG THEN <<<<>>>> ELSE <<Sig(1, 0, cs, 1, 0)>>, sc, F, sv>>)
+                              <<OP_CODESEPARATOR, OP_0>> \o MKeys(1) \o <<OP_1, OP_CHECKMULTISIG>>} :
+        Sh(I, <<"sig4", cs, sc>>) /\ (IF I THEN TRUE ELSE (\E F \in SUBSET {"CONST_SCRIPTCODE", "NULLFAIL"}, sv \in {"BASE", "WITNESS_V0"} :
+        Emit(<<"sig", IF sc[Len(sc)] = OP_CHECKMULTISIG THEN <<<<>>>> ELSE <<Sig(1, 0, cs, 1, 0)>>, sc, F, sv>>)))
+InitSig == GSig(TRUE)
 
 \* ------------------------------------------------------------------ group "der": IsValidSignatureEncoding on literal signatures
 \* 30 len 02 lenR R 02 lenS S hashtype
